@@ -69,6 +69,29 @@ Theorem C11_corner_genuine :
 Proof. exact genuine_of_permb. Qed.
 Print Assumptions C11_corner_genuine.
 
+(* THE REPAIRED RULE: with the proposal ids inherited from the motif the focal vertex JOINS
+   (fixed = true) the full statement holds: every state of every run satisfies the hard clauses AND
+   the shape clause -- this is C11_full restricted to fixed = true *)
+Theorem C11_shape_fixed :
+  forall nodes tg es0 sl cl evs,
+    WF (Z.of_nat (length nodes)) es0 ->
+    let C := mk_cfg true nodes tg es0 sl cl in
+    let '(r, sf, tr) := rewire C es0 evs in
+    Forall (fun s => Hard nodes es0 nodes (s_es s) /\ Shape es0 (s_es s)) (sf :: tr).
+Proof. exact rewire_shape_fixed. Qed.
+Print Assumptions C11_shape_fixed.
+
+(* one swap under the repaired rule: the motif of u0 is renamed u0 -> v0, the motif of v0 is renamed
+   v0 -> u0, every other label class is untouched *)
+Theorem C11_shape_step_fixed :
+  forall N es u0 v0 m0 m1 a0 a1 prs,
+    WF N es ->
+    Permutation a0 (corner_edges es u0 m0) -> Permutation a1 (corner_edges es v0 m1) ->
+    SuitFacts es u0 v0 m0 m1 a0 a1 -> map fst prs = a0 -> Permutation a1 (map snd prs) ->
+    Shape es (swap_es' es u0 v0 m0 m1 true prs).
+Proof. exact shape_step. Qed.
+Print Assumptions C11_shape_step_fixed.
+
 (* the verified checkers run on the implementation's graphs are sound for the specification *)
 Theorem C11_check_hard_sound :
   forall nodes0 es0 nodes es, check_hard nodes0 es0 nodes es = true -> Hard nodes0 es0 nodes es.
